@@ -6,6 +6,15 @@ where
     Companion: BasicDataCompanion<T>,
 {
     pub(crate) fn convert_basic_data_at_to_bytes(&mut self, from: usize) -> Result<Vec<u8>, DataError> {
+        self.convert_basic_data_at_to_bytes_at_depth(from, 0)
+    }
+
+    fn convert_basic_data_at_to_bytes_at_depth(&mut self, from: usize, depth: usize) -> Result<Vec<u8>, DataError> {
+        // lists nested deeper than the conversions follow contribute nothing, one level of recursion each
+        if depth >= crate::basic::garnish::conversions::string::MAX_CONVERSION_DEPTH {
+            return Ok(vec![]);
+        }
+
         Ok(match self.get_from_data_block_ensure_index(from)? {
             BasicData::Unit => vec![],
             BasicData::True => 1u8.to_le_bytes().to_vec(),
@@ -57,7 +66,7 @@ where
 
                 for i in start..end {
                     let item = self.get_from_data_block_ensure_index(i)?.as_list_item()?;
-                    let b = self.convert_basic_data_at_to_bytes(item)?;
+                    let b = self.convert_basic_data_at_to_bytes_at_depth(item, depth + 1)?;
                     bytes.extend(b);
                 }
 
